@@ -1,21 +1,21 @@
 CONSTANTS
   Peers = {1, 2, 3}
-  Hashes = {1, 2}
+  Hashes = {1, 11}
   D = 2
   MaxPar = 3
   MaxPend = 3
-  Horizon = 5
+  Horizon = 2
   HeadCheck = TRUE
   PlainBase = 10
   MaxHold = 0
   CritOn = FALSE
   ExportOn = TRUE
-  SampleMod = 50
+  SampleMod = 6
   MaxAnn = 6
 INIT MInit
 NEXT MNext
 VIEW view
 INVARIANTS TypeOK
 PROPERTIES StepProps
-ACTION_CONSTRAINT Export
+ACTION_CONSTRAINT ExportTypes
 CHECK_DEADLOCK FALSE
